@@ -525,6 +525,9 @@ class DatasetProcessor:
                 logger.info("To keep these intermediate files for debug purposes use --keep_tmp flag")
 
         total_assignments, polya_found, self.all_read_groups = self.load_read_info(saves_file)
+        if self.args.read_assignments and self.args.read_group is None and len(self.all_read_groups) > 1:
+            # no --read_group, but the saved run stored several groups: its experiment had several files, which are grouped by file name
+            self.args.read_group = "file_name"
         if self.args.read_assignments and self.args.read_group == "file_name":
             # restarting from saved assignments: the input files are not listed, every file of the saved run is a read group
             self.args.use_technical_replicas = len(self.all_read_groups) > 1
